@@ -88,6 +88,7 @@ class Mapper:
         self.table = dict(sorting._terminal_cmps)
         self.fs_ids = {}
         self.memo = {}
+        self.unknown_comparators = set()
 
     def fs(self, V):
         return self.fs_ids.setdefault(repr(V), len(self.fs_ids))
@@ -130,7 +131,10 @@ class Mapper:
             # a terminal class newly registered with a comparator: assume a numeric count comparison
             # (the correspondence check validates the assumption)
             return ("C", t.count(), self.fs(repr(type(t)) + repr(getattr(t, "ufl_shape", None))))
-        raise TieBroken(f"unknown terminal comparator {name} for {type(t).__name__}")
+        # a comparator the model does not know: keep the model of the pinned behaviour (order by repr);
+        # the correspondence and the property oracles decide whether the new comparator is acceptable
+        self.unknown_comparators.add(f"{name} for {type(t).__name__}")
+        return ("R", repr_pieces(t))
 
     def tree(self, e):
         k = id(e)
@@ -543,6 +547,23 @@ def gen_tensors(world, rng, sh, depth, n):
     return out
 
 
+def crossed(w):
+    """Pairs a, b whose LAST operands are separately built equal subtrees (p ~ q, p2 ~ q2) and whose FIRST
+    operands cross them (g(p) vs g(q2)): a comparator that remembers 'equal' per node instead of per pair of
+    nodes returns 0 for them.  All subtrees are fresh objects; nothing here evaluates `==`."""
+    f, g, h = w.coefs[()][:3]
+    mk = [lambda: f * g, lambda: ufl.sin(f), lambda: f + g, lambda: abs(g), lambda: f / h]
+    outer1 = [lambda x: x ** 2, lambda x: ufl.cos(x), lambda x: x * h]
+    outer2 = [lambda x, y: x / y, lambda x, y: x ** y, lambda x, y: ufl.conditional(ufl.lt(x, y), x, y)]
+    out = []
+    for n, (P, Q) in enumerate([(mk[0], mk[1]), (mk[2], mk[3]), (mk[1], mk[4]), (mk[3], mk[0])]):
+        g1, h2 = outer1[n % 3], outer2[n % 3]
+        p, q, p2, q2 = P(), P(), Q(), Q()
+        out.append(g1(p) / h2(p, p2))
+        out.append(g1(q2) / h2(q, q2))
+    return out
+
+
 def targeted(world):
     """Hand-listed families around the comparator's branches (multi-index truncation, repr order of
     counts, operand count, labels, argument parts, literals)."""
@@ -585,7 +606,12 @@ def targeted(world):
     fam.append(("exprlist-lengths", [ExprList(f, g), ExprList(f, g, h), ExprList(g, f), ExprList(f), ExprList(f, g, g)]))
     vs = [ufl.variable(f), ufl.variable(f), ufl.variable(g), ufl.variable(f * g), ufl.variable(g * f)]
     fam.append(("variables", vs))
-    fam.append(("literals", list(w.lits) + [ufl.as_ufl(1.0), ufl.as_ufl(10.0)]))
+    cplx = [ufl.as_ufl(z) for z in (1 + 2j, 1 - 2j, 3 + 4j, 4 + 3j, 5j, -5j, 2 + 0.5j)]
+    fam.append(("literals", list(w.lits) + [ufl.as_ufl(1.0), ufl.as_ufl(10.0)] + cplx))
+    # literals as factors / exponents of otherwise equal operands
+    lits = [ufl.as_ufl(2), ufl.as_ufl(10), ufl.as_ufl(9), ufl.as_ufl(-3), ufl.as_ufl(2.5), ufl.as_ufl(0.5)] + cplx
+    fam.append(("literal-factors", [z * f for z in lits] + [f ** z for z in lits[:4] + cplx[:3]]))
+    fam.append(("crossed-equal-subtrees", crossed(w)))
     fam.append(("mixed-kinds", [f, w.consts[()][0], w.args[()][0], w.lits[0], f + g, f * g, abs(f), f / g,
                                 ufl.sin(f), f ** 2, ufl.variable(f), T1[0][0]]))
     return fam
